@@ -28,7 +28,7 @@ ASSUMPTIONS = [
     "'immediately' = the two status requests are among the frames the console receives within 50 ms (+ link latency) of the new connection",
     "poll deadlines within 0.1 s of a group status arrival or of a connection change are not judged",
 ]
-PROBES = ["c14.foreign_records_in_refresh", "c14.poll_in_second_session", "c14.poll_deadline_with_full_buffer", "c14.reconnection_dead_on_arrival", "c14.poll_deadline_in_outage", "c14.silence_after_outage", "c14.poll_write_error", "c14.fin", "c14.rst", "c14.blackhole", "c14.reboot", "c14.write_error", "c14.state_changed_while_down", "c14.unchanged_refresh",
+PROBES = ["c14.handler_write_error", "c14.foreign_records_in_refresh", "c14.poll_in_second_session", "c14.poll_deadline_with_full_buffer", "c14.reconnection_dead_on_arrival", "c14.poll_deadline_in_outage", "c14.silence_after_outage", "c14.poll_write_error", "c14.fin", "c14.rst", "c14.blackhole", "c14.reboot", "c14.write_error", "c14.state_changed_while_down", "c14.unchanged_refresh",
           "c14.outage_beyond_heartbeat", "c14.second_outage", "c14.poll_after_outage", "c14.poll_fired", "c14.poll_repeated", "c14.poll_pushed_back"]
 
 
@@ -46,7 +46,7 @@ def generate(rng, index: int, tier: str) -> dict:
     for a in inst["acs"]:
         tl.append({"at": 5.5, "op": "user.subscribe", "name": f"ac{a['ac']}", "target": ["ac", a["ac"]], "method": "subscribe"})
     tl.append({"at": 5.5, "op": "user.subscribe", "name": "at", "target": ["at"], "method": "subscribe"})
-    kind = rng.choice(["fin", "rst", "blackhole", "reboot", "write_error"] + (["poll_write_error"] * 2 if gen == 4 else []))
+    kind = rng.choice(["fin", "rst", "blackhole", "reboot", "write_error", "handler_write_error"] + (["poll_write_error"] * 2 if gen == 4 else []))
     t_o = G.pick_time(rng, 6.0, 700.0, anchors=[300.0, 300.09375, 330.0, 600.0])
     if kind == "poll_write_error":
         # the first write to meet the dead link is the client's own 300 s group-status poll (its deadline is moved off the
@@ -63,7 +63,7 @@ def generate(rng, index: int, tier: str) -> dict:
         fates = [{"kind": rng.choice(["refuse", "unreachable"]), "latency": 0.0} for _ in range(rng.choice([1, 3, 10]))] + [{"kind": "accept", "latency": 0.0}]
     else:
         fates = [{"kind": "timeout", "latency": 120.0}] * rng.choice([1, 3]) + [{"kind": "accept", "latency": 0.5}]
-    dead_on_arrival = kind in ("fin", "rst", "reboot", "write_error") and rng.random() < 0.25
+    dead_on_arrival = kind in ("fin", "rst", "reboot", "write_error", "handler_write_error") and rng.random() < 0.25
     if dead_on_arrival:
         # a second fault during the recovery: the first connection that comes up is reset by the console at once (the
         # refresh meets a dead transport); the one after it is healthy
@@ -81,6 +81,16 @@ def generate(rng, index: int, tier: str) -> dict:
         tl.append({"at": t_o, "op": "console.reboot"})
     elif kind == "poll_write_error":
         tl.append({"at": t_o - G.EPS, "op": "net.fail_write", "nth": 1, "err": rng.choice(["ECONNRESET", "EPIPE"])})
+    elif kind == "handler_write_error":
+        t_o = G.dyadic(rng, 20.0, 280.0)  # away from the client's own periodic writes: the handler's write must be the one that fails
+        for x in tl:
+            if x["op"] in ("net.fates", "net.rst_next_accept") and abs(x["at"] - t_o) > 1.0 and x["at"] > 6.0:
+                x["at"] = t_o - G.EPS
+        # the loss is discovered by a write the client makes while it is processing a status frame: the console pushes an AC
+        # status with a new error code, the client asks for the description from inside its message handler - that write fails
+        tl.append({"at": t_o - G.EPS, "op": "net.fail_write", "nth": 1, "err": rng.choice(["ECONNRESET", "EPIPE"])})
+        cur_err = (inst["acs"][0].get("state") or {}).get("error", 0)
+        tl.append({"at": t_o, "op": "console.set", "entity": ["ac", inst["acs"][0]["ac"]], "fields": {"error": rng.choice([e for e in (3, 0x22, 0x1234, 77) if e != cur_err])}, "only": True})
     else:
         tl.append({"at": t_o, "op": "net.fail_write", "nth": rng.choice([1, 2]), "err": "ECONNRESET"})
         tl.append({"at": t_o + G.EPS, "op": "user.api", "target": ["at"], "call": "check_for_updates", "args": {}})
@@ -253,12 +263,19 @@ def execute(sc: dict) -> dict:
         if diffs:
             V.append(viol("C14.stale_after_reconnect", {"diffs": diffs[:4], "kind": info.get("kind")}, attr=diffs[0]["attr"]))
     # unchanged refresh -> no notifications
-    if info.get("changed"):
+    if info.get("changed") or info.get("kind") == "handler_write_error":  # (there the state changes in the instant of the loss)
         probes["c14.state_changed_while_down"] = 1
     elif not V:
         probes["c14.unchanged_refresh"] = 1
         t2 = links[1].t_accept
         calls = [e for e in w.trace.events if e[2] == "sub.call" and e[1] >= t2]
+        if info.get("kind") == "handler_write_error":
+            # the status frame whose handling met the dead link did change the AC (new error code): its notification is owed
+            # and may come late - the handler first resets the connection, and only then tells the subscribers; it still
+            # precedes the first answer to the refresh
+            seq_up = next((e[0] for e in w.trace.events if e[2] == "net.connect_result" and e[3].get("ok") and e[3].get("link") == links[1].id), 0)
+            seq_ans = next((e[0] for e in w.trace.events if e[2] == "console.tx" and e[0] > seq_up), 10**12)
+            calls = [e for e in calls if not (e[0] < seq_ans and e[3]["k"] == "ac%d" % inst["acs"][0]["ac"])]
         if calls:
             V.append(viol("C14.notified_on_unchanged_refresh", {"calls": [(e[1], e[3]["k"]) for e in calls][:5]}))
     if w.verdict == "stepcap":
